@@ -248,3 +248,40 @@ def unused_parameters(repo, rep, rule, prefixes, what):
                          anchor=f"unused-parameter:{fi.short}.{p}")
     rep.ok(rule, "package", f"{n} parameters in {', '.join(prefixes)}", "every parameter is read (or was already unused when the rules were written)")
     return n
+
+
+RATIO_STATS = ("tm01", "tm02", "dm", "dspr", "fdspr", "dpm", "swe", "sw", "goda", "momf", "momd")
+
+
+def same_band_ratios(repo, rep, rule):
+    """Normalised moments (periods, mean direction, spreads, widths) divide integrals taken over the resolved band by the same quadrature.
+    hs() adds a parametric high-frequency tail by default, so (hs()/4)**2 is NOT the m0 those numerators were integrated with: using it
+    as a denominator biases the statistic whenever the tail term applies (freq[-1] > 0.333 Hz).  A comparison guard on hs() is not a use."""
+    sa = repo.cls("wavespectra.specarray.SpecArray")
+    n = 0
+    for name in RATIO_STATS:
+        fi = sa.methods.get(name)
+        if fi is None:
+            continue
+        n += 1
+        bad = None
+        for c in ast.walk(fi.node):
+            if isinstance(c, ast.Call) and isinstance(c.func, ast.Attribute) and c.func.attr in ("hs", "hrms") and unparse(c.func.value) in ("self", "self._obj.spec"):
+                tail_off = any(k.arg == "tail" and isinstance(k.value, ast.Constant) and k.value.value is False for k in c.keywords) or \
+                    (c.args and isinstance(c.args[0], ast.Constant) and c.args[0].value is False)
+                p = getattr(c, "_parent", None)
+                in_compare = False
+                while p is not None and not isinstance(p, ast.stmt):
+                    if isinstance(p, ast.Compare):
+                        in_compare = True
+                    p = getattr(p, "_parent", None)
+                if not tail_off and not in_compare:
+                    bad = c
+        if bad is not None:
+            rep.fail(rule, fi.file, bad.lineno, fi.qualname, unparse(getattr(bad, "_parent", bad))[:100],
+                     "the total energy is taken from hs(), which includes the parametric high-frequency tail by default, while the other moments of "
+                     "this statistic are integrated over the resolved band only: the normalised moment is biased whenever freq[-1] > 0.333 Hz "
+                     "(spread too large, period shifted), i.e. it no longer equals its defining integral")
+        else:
+            rep.ok(rule, f"{fi.file}:{fi.node.lineno} SpecArray.{name}", "no energy total taken from hs()", "numerator and denominator share one band and quadrature")
+    rep.floor(rule, "ratio statistics examined", n, 9)
